@@ -45,9 +45,9 @@ def copt_str(x):
 
 
 def nosurr(s):
-    """no lone surrogates (email.message wraps them in a Header object) and no capital sigma (str.lower()'s context-dependent
+    """no lone surrogates (email.message wraps them in a Header object) and no capital / final sigma (str.lower()'s context-dependent
     final-sigma rule is the one known divergence of Names.v's per-character lower map; comparisons fold it, dictionary lookups cannot)"""
-    return not any(0xD800 <= ord(c) <= 0xDFFF or c == "\u03a3" for c in s)
+    return not any(0xD800 <= ord(c) <= 0xDFFF or c in "\u03a3\u03c2" for c in s)
 
 
 def new_config(cfg=None, meta="none", encoding="utf-8", doc_path="/nonexistent/doc.json", out=None):
